@@ -552,6 +552,34 @@ func (n *node) RouteCallAlias(from gen.PID, to gen.Alias, options gen.MessageOpt
 	return nil
 }
 
+// addRelation inserts a link/monitor relation on a local target and re-checks
+// the target afterwards: the target may have been removed from its table (and
+// its relations drained) between the caller's existence check and the insert.
+// If the target is gone and the relation is still there, the drain ran before
+// the insert and nobody would ever be notified: the request fails. If the
+// relation is gone already, the drain took it and the exit/down message is on
+// its way: the request succeeded.
+func (n *node) addRelation(pid gen.PID, target any, monitor bool, exist func() bool, unknown error) error {
+	var err error
+	if monitor {
+		err = n.targetManager.AddMonitor(pid, target)
+	} else {
+		err = n.targetManager.AddLink(pid, target)
+	}
+	if err != nil || exist() {
+		return err
+	}
+	if monitor {
+		err = n.targetManager.RemoveMonitor(pid, target)
+	} else {
+		err = n.targetManager.RemoveLink(pid, target)
+	}
+	if err == nil {
+		return unknown
+	}
+	return nil
+}
+
 func (n *node) RouteLinkPID(pid gen.PID, target gen.PID) error {
 	if n.isRunning() == false {
 		return gen.ErrNodeTerminated
@@ -567,7 +595,7 @@ func (n *node) RouteLinkPID(pid gen.PID, target gen.PID) error {
 			return gen.ErrProcessUnknown
 		}
 		lib.VerifPoint("link.checked", target)
-		return n.targetManager.AddLink(pid, target)
+		return n.addRelation(pid, target, false, func() bool { _, exist := n.processes.Load(target); return exist }, gen.ErrProcessUnknown)
 	}
 
 	// remote target
@@ -628,7 +656,7 @@ func (n *node) RouteLinkProcessID(pid gen.PID, target gen.ProcessID) error {
 			return gen.ErrProcessUnknown
 		}
 		lib.VerifPoint("link.checked", target)
-		return n.targetManager.AddLink(pid, target)
+		return n.addRelation(pid, target, false, func() bool { _, exist := n.names.Load(target.Name); return exist }, gen.ErrProcessUnknown)
 	}
 
 	// remote target
@@ -686,7 +714,7 @@ func (n *node) RouteLinkAlias(pid gen.PID, target gen.Alias) error {
 			return gen.ErrAliasUnknown
 		}
 		lib.VerifPoint("link.checked", target)
-		return n.targetManager.AddLink(pid, target)
+		return n.addRelation(pid, target, false, func() bool { _, exist := n.aliases.Load(target); return exist }, gen.ErrAliasUnknown)
 	}
 
 	// remote target
@@ -752,7 +780,7 @@ func (n *node) RouteLinkEvent(pid gen.PID, target gen.Event) ([]gen.MessageEvent
 
 		event := value.(*eventOwner)
 		lib.VerifPoint("link.checked", target)
-		if err := n.targetManager.AddLink(pid, target); err != nil {
+		if err := n.addRelation(pid, target, false, func() bool { _, exist := n.events.Load(target); return exist }, gen.ErrEventUnknown); err != nil {
 			return nil, err
 		}
 		lib.VerifPoint("event.sub.added", target)
@@ -871,7 +899,7 @@ func (n *node) RouteMonitorPID(pid gen.PID, target gen.PID) error {
 			}
 		}
 		lib.VerifPoint("link.checked", target)
-		return n.targetManager.AddMonitor(pid, target)
+		return n.addRelation(pid, target, true, func() bool { _, exist := n.processes.Load(target); return exist }, gen.ErrProcessUnknown)
 	}
 
 	// remote target
@@ -935,7 +963,7 @@ func (n *node) RouteMonitorProcessID(pid gen.PID, target gen.ProcessID) error {
 			}
 		}
 		lib.VerifPoint("link.checked", target)
-		return n.targetManager.AddMonitor(pid, target)
+		return n.addRelation(pid, target, true, func() bool { _, exist := n.names.Load(target.Name); return exist }, gen.ErrProcessUnknown)
 	}
 
 	// remote target
@@ -995,7 +1023,7 @@ func (n *node) RouteMonitorAlias(pid gen.PID, target gen.Alias) error {
 			return gen.ErrAliasUnknown
 		}
 		lib.VerifPoint("link.checked", target)
-		return n.targetManager.AddMonitor(pid, target)
+		return n.addRelation(pid, target, true, func() bool { _, exist := n.aliases.Load(target); return exist }, gen.ErrAliasUnknown)
 	}
 
 	// remote target
@@ -1060,7 +1088,7 @@ func (n *node) RouteMonitorEvent(pid gen.PID, target gen.Event) ([]gen.MessageEv
 		}
 		event := value.(*eventOwner)
 		lib.VerifPoint("link.checked", target)
-		if err := n.targetManager.AddMonitor(pid, target); err != nil {
+		if err := n.addRelation(pid, target, true, func() bool { _, exist := n.events.Load(target); return exist }, gen.ErrEventUnknown); err != nil {
 			return nil, err
 		}
 		lib.VerifPoint("event.sub.added", target)
